@@ -366,7 +366,7 @@ func (x *Executor) execLoop(fr *Frame, li *loopInfo, ins []incoming) map[*ssa.Ba
 	}
 	if ws.all {
 		for c := range u.heapSorts {
-			if !ws.comps[c] {
+			if !ws.comps[c] && !(u.heapKinds[c] == "global" && u.eng.isConstGlobal(c)) {
 				cs = append(cs, c)
 			}
 		}
@@ -548,6 +548,12 @@ func (x *Executor) value(fr *Frame, v ssa.Value) Val {
 	case *ssa.Global:
 		pt := t.Type().(*types.Pointer).Elem()
 		name, _ := u.globalComp(t.Pkg.Pkg.Path(), t.Name(), pt)
+		if u.eng.constErrGlobal(t, name) {
+			g0 := q(name + "@0")
+			u.declare(g0, "Iface")
+			u.assume(fmt.Sprintf("(not (= (i.tag %s) 0))", g0))
+			u.trusted["package-level error variables assigned once in init are non-nil constants (checked syntactically)"] = true
+		}
 		return Val{T: "0", Ty: t.Type(), Addr: &Addr{Kind: "global", Global: name, GlobT: pt, Ty: pt}}
 	case *ssa.Builtin:
 		return Val{T: "0", Ty: t.Type()}
